@@ -13,7 +13,7 @@ pub fn def() -> PropDef {
         nontrivial,
         functional: true,
         post: super::no_post,
-        rule: "expression trees over the complete operator set (?:, ||, &&, the seven relations, + - * / %, prefix ! and -, select, index, global and receiver calls) x 2 leaf kinds: all trees with <= 2 operators (quick) / <= 3 (thorough), every && / || chain length 1..64, every prefix run 1..6, random trees to depth 7; each rendered fully parenthesised and minimally parenthesised under the precedence table, compiled by the real parser; the predicate compares the parsed AST with the tree that was rendered, modulo re-association of same-operator logical chains; plus macro calls whose receiver and arguments must occur intact in the expansion, and the source texts of the other generators (model parser vs real parser); non-trivial = at least one operator; distinct = distinct text",
+        rule: "expression trees over the complete operator set (?:, ||, &&, the seven relations, + - * / %, prefix ! and -, select, index, global and receiver calls) x 2 leaf kinds: all trees with <= 2 operators (quick) / <= 3 (thorough), every && / || chain length 1..64, unparenthesised chains of length 2..10 of every left-associative operator (one operator throughout and mixed within a level), conditional ladders to 6 rungs, macro calls on macro results, every prefix run 1..6, random trees to depth 7; each rendered fully parenthesised and minimally parenthesised under the precedence table, compiled by the real parser; the predicate compares the parsed AST with the tree that was rendered, modulo re-association of same-operator logical chains; plus macro calls whose receiver and arguments must occur intact in the expansion, and the source texts of the other generators (model parser vs real parser); non-trivial = at least one operator; distinct = distinct text",
         exhaustive_note: "trees with <= 2 operators, chain lengths <= 64 and prefix runs <= 6 are enumerated completely in the quick tier",
     }
 }
@@ -315,6 +315,43 @@ pub fn generate(tier: Tier, rng: &mut Rng) -> Vec<Case> {
             out.push(c);
         }
     }
+    // unparenthesised chains of the left-associative operators, every length 2..10, one operator
+    // throughout and mixed within a precedence level; conditional ladders (right-associative)
+    {
+        let names: [&'static str; 11] = ["a", "b", "c", "d", "e", "f", "g", "h", "i", "j", "k"];
+        let levels: [&[&'static str]; 3] = [&["<", "<=", ">", ">=", "==", "!=", "in"], &["+", "-"], &["*", "/", "%"]];
+        for level in levels {
+            for len in 2..=10usize {
+                // one operator throughout
+                for op in level.iter() {
+                    let mut t = T::Id(names[0]);
+                    for i in 1..=len {
+                        t = T::Bin(op, Box::new(t), Box::new(T::Id(names[i])));
+                    }
+                    push_tree(&mut out, &t, "chain");
+                }
+                // mixed operators of the level
+                for _ in 0..3 {
+                    let mut t = T::Id(names[0]);
+                    for i in 1..=len {
+                        t = T::Bin(*rng.pick(level), Box::new(t), Box::new(T::Id(names[i])));
+                    }
+                    push_tree(&mut out, &t, "chain");
+                }
+            }
+        }
+        for len in 1..=6usize {
+            // c1 ? v1 : c2 ? v2 : … : d   and the same with the ladder in the `then` position
+            let mut else_ladder = T::Id(names[10]);
+            let mut then_ladder = T::Id(names[10]);
+            for i in (0..len).rev() {
+                else_ladder = T::Cond(Box::new(T::Id(names[i])), Box::new(T::Int(i as i64)), Box::new(else_ladder));
+                then_ladder = T::Cond(Box::new(T::Id(names[i])), Box::new(then_ladder), Box::new(T::Int(i as i64)));
+            }
+            push_tree(&mut out, &else_ladder, "chain");
+            push_tree(&mut out, &then_ladder, "chain");
+        }
+    }
     // prefix runs: an even number cancels
     for op in ["!", "-"] {
         for n in 1..=6usize {
@@ -364,6 +401,18 @@ pub fn generate(tier: Tier, rng: &mut Rng) -> Vec<Case> {
         c.src = Some(src);
         c.tags = vec!["program-text", "ops"];
         out.push(c);
+    }
+    // macro calls whose receiver is itself a macro call, same and different variable names
+    for m1 in ["filter(x, x > 1)", "map(x, x * 2)", "map(x, x > 1, x * 2)"] {
+        for m2 in ["map(x, x * 2)", "map(y, y * 2)", "filter(x, x > 1)", "all(x, x > 0)", "exists(y, y > 0)", "exists_one(x, x == 2)", "map(x, x > 1, [x])"] {
+            for recv in ["l", "[1, 2, 3]", "m.f"] {
+                let src = format!("{recv}.{m1}.{m2}");
+                let mut c = compile_case(&src);
+                c.src = Some(src);
+                c.tags = vec!["macro-chain", "ops"];
+                out.push(c);
+            }
+        }
     }
     // grammar corners
     for src in [
